@@ -139,6 +139,9 @@ func (cc *caseCtx) envFuzz(F *appstate.AppState, hdr *types.Header) {
 	switch r.Intn(4) {
 	case 0:
 		limit = int64(r.Intn(600))
+		if r.Intn(4) == 0 {
+			limit = 0 // a limit of exactly zero is a limit, not "unlimited"
+		}
 	case 1:
 		limit = int64(r.Intn(4000))
 	case 2:
